@@ -489,8 +489,16 @@ func Check(tier, id string) int {
 	findings := loadFindings()
 	byClass := map[string][]sim.Record{}
 	var classes []string
+	var harness []string
 	for _, v := range a.violations {
 		c := v.Result.Violation.Class
+		if strings.HasPrefix(c, "HARNESS/") {
+			// a scenario reporting that the *harness* is in trouble (tasks
+			// did not settle, a generator produced an input its own
+			// reference rejects ...): never a property violation
+			harness = append(harness, fmt.Sprintf("%s seed=%d run=%d: %s", v.Scenario, v.Seed, v.Run, v.Result.Violation.Msg))
+			continue
+		}
 		if _, ok := byClass[c]; !ok {
 			classes = append(classes, c)
 		}
@@ -545,6 +553,12 @@ func Check(tier, id string) int {
 		violSamples = append(violSamples, map[string]any{"violation_class": c, "msg": min.Result.Violation.Msg, "replay": path})
 	}
 
+	if len(harness) > 0 && exit == 0 {
+		if len(harness) > 5 {
+			harness = harness[:5]
+		}
+		Trouble("a scenario reported harness trouble:\n  %s", strings.Join(harness, "\n  "))
+	}
 	if len(unconfirmed) > 0 {
 		if exit == 0 {
 			Trouble("%s", strings.Join(unconfirmed, "\n"))
